@@ -134,6 +134,14 @@ func VerifyFunc(P *Program, C *Contracts, fn *ssa.Function, con *Contract) (res 
 	}
 	x.collectTyping = false
 	x.assumeCollectedTyping(st)
+	for _, c := range con.EntryAssumes {
+		t, err := x.trClause(env, c)
+		if err != nil {
+			x.unsupported("%v", err)
+		}
+		st.assume(t)
+		x.assumed["entry assumption ["+c.Label+"] of "+shortName(con.Name)+": "+c.Src] = true
+	}
 	x.old = st.clone()
 	// resolve own modifies once in the entry state
 	menv := x.baseEnv(x.old, fr)
@@ -479,10 +487,12 @@ func (x *Exec) havocLoop(st *State, fr *Frame, header *ssa.BasicBlock, ord int) 
 		}
 	}
 	typStable()
-	// allocation may have grown
-	na := x.freshConst("alloc", "Int")
-	st.assume(app("<=", st.alloc, na))
-	st.alloc = na
+	// allocation may have grown (only if some path through the body allocates, itself or through a callee)
+	if ws.allocs || ws.names["typ"] {
+		na := x.freshConst("alloc", "Int")
+		st.assume(app("<=", st.alloc, na))
+		st.alloc = na
+	}
 	// phis
 	for _, in := range header.Instrs {
 		phi, ok := in.(*ssa.Phi)
@@ -558,6 +568,7 @@ func (x *Exec) loopWriteSet(st *State, fr *Frame, header *ssa.BasicBlock) *write
 	saveFn, saveBody, saveAcc, saveAll := x.dryFrameFn, x.dryBody, x.dryAcc, x.dryAll
 	saveKept, saveKeptSet := x.dryKept, x.dryKeptSet
 	saveGhosts := x.dryGhosts
+	saveAlloc0, saveAllocs := x.dryAlloc0, x.dryAllocs
 	x.dry++
 	x.dryFrameFn, x.dryBody, x.dryAcc, x.dryAll = fr.fn, li.body[header], map[string]bool{}, false
 	x.dryKept, x.dryKeptSet = nil, false
@@ -566,6 +577,7 @@ func (x *Exec) loopWriteSet(st *State, fr *Frame, header *ssa.BasicBlock) *write
 	st2.written = map[string]bool{}
 	st2.writtenAll = false
 	st2.allKept = nil
+	x.dryAlloc0, x.dryAllocs = st2.alloc, false
 	fr2.inLoops[header] = true
 	// havoc phis so that nothing constant-folds
 	for _, in := range header.Instrs {
@@ -588,8 +600,9 @@ func (x *Exec) loopWriteSet(st *State, fr *Frame, header *ssa.BasicBlock) *write
 		}()
 		x.execFrom(st2, fr2, header, x.firstNonPhi(header))
 	}()
-	ws := &writeSet{names: x.dryAcc, all: x.dryAll, kept: x.dryKept, ghosts: x.dryGhosts}
+	ws := &writeSet{names: x.dryAcc, all: x.dryAll, kept: x.dryKept, ghosts: x.dryGhosts, allocs: x.dryAllocs || x.dryAll}
 	x.dryFrameFn, x.dryBody, x.dryAcc, x.dryAll = saveFn, saveBody, saveAcc, saveAll
+	x.dryAlloc0, x.dryAllocs = saveAlloc0, saveAllocs || (x.dry > 1 && ws.allocs)
 	x.dryKept, x.dryKeptSet = saveKept, saveKeptSet
 	x.dryGhosts = saveGhosts
 	if x.dry > 0 && x.dryGhosts != nil {
@@ -626,6 +639,9 @@ func (x *Exec) loopWriteSet(st *State, fr *Frame, header *ssa.BasicBlock) *write
 func (x *Exec) dryStop(st *State) {
 	for n := range st.written {
 		x.dryAcc[n] = true
+	}
+	if st.alloc != x.dryAlloc0 {
+		x.dryAllocs = true
 	}
 	if st.writtenAll {
 		x.dryAll = true
